@@ -1,6 +1,7 @@
 package main
 
 import (
+	"fmt"
 	"go/ast"
 	"go/token"
 )
@@ -222,5 +223,84 @@ func init() {
 		})
 		okWire = okWire && nLit == 1 && writes(clause, "dialUdpPipeline") == 1 && writes(clause, "dialTcpNetConn") == 1
 		ex.setBool("c17FallbackWiring", okWire, true, "udp case returns &udpWithFallback{u: pipeline transport over dialUdpPipeline, t: reuse transport over dialTcpNetConn}")
+	})
+}
+
+// C17, "the same query": the UDP side is handed the caller's slice and the TCP
+// retry is handed the same slice afterwards, so the query sent again is the
+// caller's only if nothing on the UDP side writes through that slice. The fact
+// below reads that off the datagram path (PipelineTransport.ExchangeContext ->
+// lazy conn -> TraditionalDnsConn.exchange -> writeQuery): every use of the
+// query parameter is a direct argument of a call from a short list - handing it
+// on to the next function of this path, copying it (copyMsg, copyMsgWithLenHdr:
+// the connection-local id is written into the copy) or reading its id
+// (binary.BigEndian.Uint16). Any other use (index assignment, PutUint16(q, ..),
+// copy(q, ..), q[a:b], storing it) makes the fact false.
+func init() {
+	factFuncs = append(factFuncs, func(ex *factExtractor) {
+		type site struct {
+			rel, recv, name, param string
+			allowed                []string
+		}
+		sites := []site{
+			{"pkg/upstream/upstream.go", "udpWithFallback", "ExchangeContext", "q", []string{"u.u.ExchangeContext", "u.t.ExchangeContext"}},
+			{"pkg/upstream/transport/pipeline.go", "PipelineTransport", "ExchangeContext", "m", []string{"dc.ExchangeReserved"}},
+			{"pkg/upstream/transport/conn_lazy_dial.go", "lazyDnsConnEarlyReservedExchanger", "ExchangeReserved", "q", []string{"rec.ExchangeReserved"}},
+			{"pkg/upstream/transport/conn_traditional.go", "tdcOneTimeExchanger", "ExchangeReserved", "q", []string{"(*TraditionalDnsConn)(ote).exchange"}},
+			{"pkg/upstream/transport/conn_traditional.go", "TraditionalDnsConn", "exchange", "q", []string{"dc.writeQuery", "binary.BigEndian.Uint16"}},
+			{"pkg/upstream/transport/conn_traditional.go", "TraditionalDnsConn", "writeQuery", "q", []string{"copyMsg", "copyMsgWithLenHdr"}},
+		}
+		note := "datagram path udpWithFallback.ExchangeContext -> PipelineTransport.ExchangeContext -> ExchangeReserved -> TraditionalDnsConn.exchange -> writeQuery: the query slice is only handed on, copied (copyMsg / copyMsgWithLenHdr) or read (binary.BigEndian.Uint16); nothing writes through it"
+		ok, readsOnly := true, true
+		why := ""
+		for _, s := range sites {
+			fd := ex.fn(s.rel, s.recv, s.name)
+			if fd == nil {
+				ok = false
+				why = s.recv + "." + s.name + " not found"
+				break
+			}
+			// the parameter must exist under that name and have type []byte
+			found := false
+			for _, f := range fd.Type.Params.List {
+				for _, n := range f.Names {
+					if n.Name == s.param && ex.str(f.Type) == "[]byte" {
+						found = true
+					}
+				}
+			}
+			if !found {
+				ok = false
+				why = s.recv + "." + s.name + ": no []byte parameter " + s.param
+				break
+			}
+			// every occurrence of the identifier is a whole argument of an allowed call
+			good := map[*ast.Ident]bool{}
+			ast.Inspect(fd.Body, func(x ast.Node) bool {
+				c, isCall := x.(*ast.CallExpr)
+				if !isCall || !contains(s.allowed, ex.str(c.Fun)) {
+					return true
+				}
+				for _, a := range c.Args {
+					if id, isId := a.(*ast.Ident); isId && id.Name == s.param {
+						good[id] = true
+					}
+				}
+				return true
+			})
+			ast.Inspect(fd.Body, func(x ast.Node) bool {
+				if id, isId := x.(*ast.Ident); isId && id.Name == s.param && !good[id] {
+					readsOnly = false
+					if why == "" {
+						why = s.recv + "." + s.name + " uses " + s.param + " outside " + fmt.Sprint(s.allowed)
+					}
+				}
+				return true
+			})
+		}
+		if why != "" {
+			note += " [" + why + "]"
+		}
+		ex.setBool("c17UdpSideReadsQueryOnly", readsOnly, ok, note)
 	})
 }
